@@ -231,10 +231,12 @@ def option_variants(name, data, rng):
     for prior in ('identity', 'covariance', 'random'):
       out.append(dict(prior=prior))
     out.append(dict(prior=spd_array(rng, d)))
+    out.append(dict(prior=np.ascontiguousarray(spd_array(rng, d)).astype(np.float32)))     # an SPD array in single precision
   if name in ('MMC', 'MMC_Supervised'):
     for init in ('identity', 'covariance', 'random'):
       out.append(dict(init=init))
     out.append(dict(init=spd_array(rng, d)))
+    out.append(dict(init=np.ascontiguousarray(spd_array(rng, d)).astype(np.float32)))
   if name == 'LFDA':
     for et in ('weighted', 'orthonormalized', 'plain'):
       for k in (None, 1, 2, d - 1, d + 1):
